@@ -78,7 +78,9 @@ def slices(tier, rng):
             out.append(Slice('layout-n%d-ps%d' % (n, ps), 't_layout', NHEAD + STRIDE * n,
                              lambda a, n=n, ps=ps, kinds=kinds: layout_assume(a, n, ps, kinds),
                              opts={'summarize': [], 'must_reach': ['ok', 'err'], 'time_limit': 900}, ctx={'n': n, 'desc': 'layout'}))
-    ps = 8 if tier == 'quick' else 4
+    from . import c02
+    out.append(Slice('nest-zero-ps4', 't_nest', 20, lambda a: c02.assume(a, 4, 1 << 3, [0, 3], tier, zero=True) + [a[4] == 0, a[8] == 0, a[6] == 0, a[17] == 0],
+                     opts={'summarize': ['gcd'], 'must_reach': ['ok', 'err']}))
     for ps in ((8,) if tier == 'quick' else (4, 8)):
         out.append(Slice('enum-n2-ps%d' % ps, 't_enum', 8 + 3 * 2, lambda a, ps=ps: enum_assume(a, 2, ps), opts={'must_reach': ['ok', 'err']}))
         out.append(Slice('vft-m2-ps%d' % ps, 't_vft', 4 + 10 * 2, lambda a, ps=ps: vft_assume(a, 2, ps),
